@@ -165,7 +165,13 @@ def gen_bld(rng, hist, bad):
 
 def gen_smap(rng, hist, bad):
     ns = rng.choice([0, 1, 1, 2, 2, 3, 3, 4, 5])
-    sources = [rng.choice(SRC) for _ in range(ns)]
+    many = rng.chance(0.02)
+    if many:
+        # more sources than a byte can index: ids around 255 / 256 / 257 must not be confused modulo 256
+        ns = rng.choice([256, 257, 300])
+        bump(hist, "smap_many_sources")
+    sources = [("s%d" % i if many else rng.choice(SRC)) for i in range(ns)]
+    pick = (lambda: rng.choice([0, 1, 255, 256, ns - 1, ns - 44, rng.below(ns)]) % ns) if many else (lambda: rng.below(ns))
     r = rng.below(10)
     if r < 3:
         conts = None
@@ -175,6 +181,8 @@ def gen_smap(rng, hist, bad):
         conts = [rng.choice(CONT) for _ in range(rng.choice([0, max(0, ns - 1), ns + 1, ns + 3]))]
     names = [rng.choice(NAMES) for _ in range(rng.below(3))]
     n = rng.range(1, 10) if rng.chance(0.7) else rng.range(1, 40)
+    if many:
+        n = rng.range(2, 6)
     badpos = rng.below(n) if bad else -1
     ops = []
     for k in range(n):
@@ -188,10 +196,10 @@ def gen_smap(rng, hist, bad):
             ops.append("sr:" + o(rng.choice(ROOTS)))
             kind = "sr"
         elif w < 50 and ns:
-            ops.append("ss:%d:%s" % (rng.below(ns), hx(rng.choice(SRC))))
+            ops.append("ss:%d:%s" % (pick(), hx(rng.choice(SRC))))
             kind = "ss"
         elif w < 65 and ns:
-            ops.append("sc:%d:%s" % (rng.below(ns), o(rng.choice(CONT))))
+            ops.append("sc:%d:%s" % (pick(), o(rng.choice(CONT))))
             kind = "sc"
         elif w < 88:
             ops.append("rt")
